@@ -365,10 +365,36 @@ def replay_print(rep, pid, name, cex):
         else:
             header, rows = parse_table(out or '')
             tree = fsem.tree_from_json(case['tree'], k)
-            free = [case['names'][i] for i in range(k) if fsem.free_atoms(tree, k)[i]]
-            if header is not None and [h for h in header if h != '*'] != free:
-                rep.violations.append(('print:free-index:wrong', 'header %s, free variables %s' % (header, free), path))
-                print('CONFIRMED header %s vs free %s' % (header, free))
+            fr = fsem.free_atoms(tree, k)
+            free = [case['names'][i] for i in range(k) if fr[i]]
+            problem = None
+            if header is None:
+                problem = 'no table printed (rc=%s)' % rc
+            elif [h for h in header if h != '*'] != free:
+                problem = 'header %s, free variables in variable order %s' % (header, free)
+            else:
+                ref = fsem.Sem(k, (1 << k) + 1)
+                tt = ref.sem(tree)
+                if isinstance(ref.nonconv, bool) and not ref.nonconv:
+                    for j, sg in enumerate(all_assignments(k)):
+                        cover = []
+                        for r in rows:
+                            okr = True
+                            for n, c in zip(free, r[:-1]):
+                                i = case['names'].index(n)
+                                if c != 'Any' and (c == 'True') != sg[i]:
+                                    okr = False
+                            if okr:
+                                cover.append(r)
+                        if len(cover) != 1:
+                            problem = 'assignment %s is covered by %d rows' % (dict(zip(case['names'], sg)), len(cover))
+                            break
+                        if (cover[0][-1] == 'True') != bool(tt[j]):
+                            problem = 'row %s reports %s but the formula is %s under %s' % (cover[0], cover[0][-1], bool(tt[j]), dict(zip(case['names'], sg)))
+                            break
+            if problem:
+                rep.violations.append(('print:free-index:wrong', '`rsbdd -e %r -t -o <%s>`: %s' % (case['text'], ordering_text(case['names'], ids), problem), path))
+                print('CONFIRMED rsbdd -e %r -t: %s' % (case['text'], problem))
             else:
                 rep.inconclusive.append('%s: free-index counterexample did not reproduce through the CLI (rc=%s)' % (name, rc))
 
